@@ -86,7 +86,7 @@ def oracle(tier, rng, deep=False):
             ("GLE", lambda: GeneralizedLinearEstimator(sd.Quadratic(), sp.L1(0.05), ss.AndersonCD(tol=1e-8)), "real"),
             ("SqrtLasso", lambda: SqrtLasso(alpha=0.3, tol=1e-8), "real"),
         ]
-    nrep = 2 if tier == "quick" and not deep else 10
+    nrep = 2 if tier == "quick" and not deep else (6 if tier == "quick" else 10)   # quick + broken obligation: 3x the quick search
     for _ in range(nrep):
         p = rng.randint(3, 6)
         n = rng.randint(8, 14)
